@@ -288,6 +288,19 @@ impl<'a> Ctx<'a> {
             self.viol05 += 1;
             oracle(self.out, "C05", "len", &format!("encoded_len {} but {} bytes produced for `{}` || ops: codec pdu {}", announced, enc.len(), pdu_repr(p), hex(&enc)));
         }
+        // the same value with its length field taken from the bytes the payload really encodes to: when the announced
+        // length is wrong the encoding above is not a PDU at all, and this one is what a correct peer would put on the
+        // wire - it goes through the C06 oracles (accepted => canonical) like any other byte string
+        let actual = catch_unwind(AssertUnwindSafe(|| p.payload.clone().encode(p.header.large_file_flag).len()));
+        if let Ok(actual) = actual {
+            if actual <= u16::MAX as usize && actual as u16 != p.header.pdu_data_field_length {
+                let mut w = p.clone();
+                w.header.pdu_data_field_length = actual as u16;
+                if let Ok(wire) = catch_unwind(AssertUnwindSafe(|| w.encode())) {
+                    let _ = self.pdu_op(&wire);
+                }
+            }
+        }
         match self.pdu_op(&enc) {
             Outcome::Ok(q) => {
                 if &q != p {
